@@ -152,7 +152,19 @@ impl Wal {
 		let sync_fd = Arc::new(file.try_clone()?);
 
 		// Get file size from the opened file handle
-		let existing_size = file.metadata()?.len();
+		let mut existing_size = file.metadata()?.len();
+
+		// Never append behind a torn tail (partial header, fragments without their last
+		// fragment): the reader takes such a tail for the end of the log, and whatever is
+		// appended behind it would be unreadable. Continue after the last complete record.
+		if existing_size > 0 {
+			if let Some(valid_end) = Self::end_of_last_complete_record(&file_path)? {
+				if valid_end < existing_size {
+					file.set_len(valid_end)?;
+					existing_size = valid_end;
+				}
+			}
+		}
 
 		if existing_size > 0 {
 			// Existing file: detect the compression type from the file itself.
@@ -179,6 +191,22 @@ impl Wal {
 				writer.add_compression_type_record()?;
 			}
 			Ok((writer, sync_fd))
+		}
+	}
+
+	/// Offset behind the last complete record of a segment whose read ends with
+	/// end-of-log; None if the reader reports corruption (recovery decides then).
+	fn end_of_last_complete_record(file_path: &Path) -> Result<Option<u64>> {
+		let mut reader = super::reader::Reader::new(File::open(file_path)?);
+		let mut end = 0u64;
+		loop {
+			match reader.read() {
+				Ok((_, offset)) => end = offset,
+				Err(Error::IO(e)) if e.kind() == io::ErrorKind::UnexpectedEof => {
+					return Ok(Some(end.max(reader.metadata_end())));
+				}
+				Err(_) => return Ok(None),
+			}
 		}
 	}
 
